@@ -32,6 +32,7 @@ RULE += (
 RULE += (
          'Links followed without the cookie and first visits as '
          'machine rules. ')
+RULE += ('Round 8: ids taken from a method / attribute named with id=. ')
 ASSUMPTIONS = [
     'sibling ids are unique (the state identifies nodes by id path)',
     'the model is the set of expanded id paths; rows are compared in '
